@@ -1,14 +1,19 @@
 """C01 — value-flow facts hold in every UB-free execution.
 
 Obligations
-  theorems   Cppcheck.Props.C01 (Lean): calculate / castValue / infer transfer functions sound (+ the proved
-             counterexamples of the full statements), MiniC interpreter = big-step semantics, validator_sound.
+  theorems   Cppcheck.C01.* (Props/C01.lean): calculate_sound, calculate_error_iff, infer_known_sound, infer_sound_partial
+             (+ infer_sound_counterexample: the full statement is false of the code, F20), fold_binary_sound_partial
+             (+ fold_binary_unsigned_wrap_counterexample, F5), validator_sound / validator_sound_bigstep (all MiniC programs,
+             all inputs, all platform records, no hypothesis), interpreter_agrees_bigstep
   C1         in-process correspondence (harness/c01.cpp vs lean/Driver/C01.lean): calculate<bigint>, calculate<int>,
              castValue, truncateIntValue, infer(makeIntegralInferModel(), …), getMinValue/getMaxValue
   E2E        generated MiniC programs printed as C; `cppcheck --dump` facts (hook H1: indirect=) mapped to MiniC
-             occurrences and passed to the verified validator (accepted = proved for all inputs of that program)
+             occurrences and passed to the verified validator (accepted = proved for all inputs of that program);
+             rejected => violation search with the Lean interpreter, root-cause reduction, classification
+  SPEC       the MiniC interpreter (the semantics the validator is proved against) agrees with gcc -fsanitize=undefined
 P_impl       transfer functions: the real result holds of concrete operands (python reference C semantics);
              end-to-end: a reported Known/Impossible fact holds in a concrete UB-free execution of the program
+docs/C01.md describes models, theorems, the generated fragment and the findings.
 """
 import os, re, json
 from .. import core, build_repo
@@ -18,13 +23,17 @@ LEVEL = "other"
 RULE = ("transfer cases = (operator, operand pair) with operands from {0, ±1, ±2, type limits of 8/16/32/64 bits ±1, 2^k±1, "
         "shift counts around 0/31/32/62/63/64, random 64-bit}, value lists built around a concrete operand (claims that hold of it, "
         "soft values that need not) and unconstrained lists; non-trivial = the real function returned a result (not error / empty list). "
-        "programs = generated MiniC functions (see docs/C01.md); a program case is non-trivial when cppcheck attached at least one "
-        "Known/Impossible fact to a mapped occurrence other than a literal")
-EXPLANATION = ("Proved in Lean: the transfer functions (calculate, castValue, infer) are sound on the stated domains, the fact validator is "
-               "sound for every MiniC program, every argument vector and every platform record (validator_sound). Each reported fact the "
-               "validator accepts is thereby proved for all inputs of that program; programs are sampled, so the property is decided only "
-               "on the sampled programs (level other). Outside the model: floats, pointers, arrays, structs, calls, globals, switch, goto, "
-               "for-loops are desugared, C++ features, symbolic facts, container/lifetime values, facts with indirect != 0.")
+        "programs = the corpus (10 finding witnesses, 8 positive programs with loops/casts/unsigned) + generated MiniC functions of the "
+        "quiet fragment (docs/C01.md section 4), 20 per translation unit; a program case is non-trivial when cppcheck attached at least one "
+        "Known/Impossible fact to a mapped occurrence other than a literal; gcc cross-check programs use the whole MiniC language")
+EXPLANATION = ("Proved in Lean: calculate and infer are sound on the stated domains (the full statement for infer is refuted: F20), the fact "
+               "validator is sound for every MiniC program, argument vector and platform record (validator_sound, no hypothesis), the "
+               "interpreter equals the big-step semantics. Each reported fact the validator accepts is thereby proved for all inputs of that "
+               "program; programs are sampled and the generated fragment is small (int variables, + - *, comparisons, && ||, if/else, "
+               "compound assignment, ++/--: every wider construct makes cppcheck report facts that executions contradict, see the 10 known "
+               "findings and docs/C01.md section 4), so the property is decided only there (level other). Outside the model: floats, pointers, "
+               "arrays, structs, calls, globals, switch, goto, C++, symbolic facts, container/lifetime values, facts with indirect != 0, "
+               "Possible values. castValue: correspondence only.")
 THEOREMS = ["Cppcheck.C01.calculate_sound", "Cppcheck.C01.calculate_error_iff", "Cppcheck.C01.infer_sound_counterexample",
             "Cppcheck.C01.infer_known_sound", "Cppcheck.C01.infer_sound_partial", "Cppcheck.C01.fold_binary_unsigned_wrap_counterexample",
             "Cppcheck.C01.fold_binary_sound_partial", "Cppcheck.C01.validator_sound", "Cppcheck.C01.validator_sound_bigstep",
